@@ -380,6 +380,10 @@ def run(ctx):
     from . import c08, c10
     reuse(ctx, lambda c: c10.own_rule(c, only_module="aspire.samples", fields=("log_w", "weights", "log_likelihood", "log_prior", "log_q")), ("C10.own",), "C02own",
           "ownership rule shared with C10: an in-place update through an alias of self.log_w / a density field changes the stored value")
+    # ---- the SMC evidence is rebuilt from the recorded per-step series: it keeps the requested float width only if the series does
+    from . import c15
+    reuse(ctx, c15.evidence_dtype_rule, ("C15.evid",), "C02smc", "precision rule shared with C15: per-step ratios narrowed to Python floats come back in the namespace's default width "
+          "(float32 under torch), so the returned log-evidence and its error are not accurate to the requested float64")
     # ---- values returned by a pool-mapped likelihood / prior belong to the rows they were computed for
     reuse(ctx, c10.pool_rule, ("C10.pool",), "C02pool", "pool rule shared with C10: with an unordered map the log-likelihood stored in row i is that of another sample, so log_w[i] is not L + P - Q of sample i")
     # ---- the same functional on SMC populations: the step's evidence ratio is the log of the mean incremental weight
@@ -502,6 +506,7 @@ MUTANTS = [
       "C02.ovf", within="Samples.compute_weights"),
 ]
 MUTANTS += [
+    M("per-step evidence ratios narrowed to Python floats", "src/aspire/samplers/smc/base.py", "log_evidence_ratio = samples.log_evidence_ratio(beta)", "log_evidence_ratio = float(samples.log_evidence_ratio(beta))", "C02smc.evid"),
     M("pool map returns results in completion order", "src/aspire/utils.py", "self.original_log_likelihood, map_fn=self.pool.map", "self.original_log_likelihood, map_fn=self.pool.imap_unordered", "C02pool"),
     M("SMC history created once per sampler object: a second run sums both runs' ratios", "src/aspire/samplers/smc/base.py", "iterations = 0\n            self.history = SMCHistory()", "iterations = 0", "C02smc.sum"),
     M("ESS from unshifted log-weights via the helper", _S, "log_w = self.log_w - self.xp.max(self.log_w)\n        self.effective_sample_size = self.xp.exp(\n            asarray(logsumexp(log_w) * 2 - logsumexp(log_w * 2), self.xp)\n        )",
